@@ -2,7 +2,7 @@
 //! `minidump_processor::process_minidump`, print the ProcessState fields canonically.
 //!
 //! case (whitespace separated, all decimal):
-//!   <arch> <platform_id> <time_date_stamp>          arch + 65536 = the whole dump is written big-endian
+//!   <arch> <platform_id> <time_date_stamp>          arch + 65536 = big-endian dump, + 131072 = regions in a Memory64List
 //!   T <n>  { id ctxkind ip sp stackidx sbase }*n     ctxkind 0 none | 1 valid | 2 wrong flags | 3 truncated
 //!                                                   stackidx -1 = null descriptor starting at sbase
 //!   N <k>  { id readable nameid }*k                  thread name "n<nameid>"
@@ -52,6 +52,8 @@ pub struct Case {
     pub arch: u16,
     /// the whole dump is written big-endian (arch token + 65536)
     pub big_endian: bool,
+    /// the memory regions are written as a Memory64List (arch token + 131072); threads then have null stack descriptors
+    pub mem64: bool,
     pub platform: u32,
     pub time: u32,
     pub threads: Vec<ThreadCase>,
@@ -91,7 +93,8 @@ pub fn parse_case(t: &mut Toks) -> Case {
     let mut c = Case::default();
     let a = t.u64();
     c.arch = (a & 0xffff) as u16;
-    c.big_endian = a >> 16 != 0;
+    c.big_endian = (a >> 16) & 1 != 0;
+    c.mem64 = (a >> 17) & 1 != 0;
     c.platform = t.u64() as u32;
     c.time = t.u64() as u32;
     expect_tok(t, "T");
@@ -341,6 +344,7 @@ pub fn build_dump(c: &Case) -> Vec<u8> {
     let mut ctx_sections: Vec<Section> = vec![];
     for t in &c.threads {
         let mut s = Section::with_endian(e).D32(t.id).D32(0).D32(0).D32(0).D64(0);
+        assert!(!(c.mem64 && t.stackidx >= 0), "a Memory64List region cannot be cited by a thread");
         s = if t.stackidx >= 0 {
             mems[t.stackidx as usize].cite_memory_in(s)
         } else {
@@ -394,7 +398,7 @@ pub fn build_dump(c: &Case) -> Vec<u8> {
         dump = dump.add(cs);
     }
     for m in mems {
-        dump = dump.add_memory(m);
+        dump = if c.mem64 { dump.add_memory64(m) } else { dump.add_memory(m) };
     }
     for (base, bytes) in &c.raw_mems {
         dump = dump.add_memory(Memory::with_section(Section::with_endian(e).append_bytes(bytes), *base));
